@@ -702,9 +702,12 @@ fn long_lived(tier: Tier, ctx: &mut Ctx) -> Result<(), crate::runner::Violation>
     use crate::case::{Cfg, Sk};
     use aho_corasick::automaton::OverlappingState;
     let traffic_mib = if tier == Tier::Thorough { 12 } else { 3 };
-    let lists: [Vec<Vec<u8>>; 2] = [
+    let lists: [Vec<Vec<u8>>; 3] = [
         [&b"abcd"[..], b"bcd", b"cd", b"d", b"ab", b"bca", b"zq", b"Qx", b"k~", b"%%"].iter().map(|p| p.to_vec()).collect(),
         [&b"needle"[..], b"need", b"eedle", b"dle", b"e", b"xyzzy", b"Jq", b"~#", b"@k", b"0Z"].iter().map(|p| p.to_vec()).collect(),
+        // every pattern >= 2 bytes, many first and rare bytes (packed prefilter); the
+        // first pattern has a later, shorter pattern as a prefix (earliest mode differs)
+        [&b"abcd"[..], b"bcd", b"cd", b"zq", b"Qx", b"k~", b"%%", b"ab", b"bca", b"Jw"].iter().map(|p| p.to_vec()).collect(),
     ];
     let mut rounds = 0u64;
     for (li, patterns) in lists.iter().enumerate() {
@@ -766,6 +769,16 @@ fn long_lived(tier: Tier, ctx: &mut Ctx) -> Result<(), crate::runner::Violation>
                         let _ = r;
                         total += 2 * 60_000;
                         k += 1;
+                    }
+                    // ... and a burst of tiny searches in which a prefilter
+                    // skips next to nothing (adaptive heuristics see their worst case)
+                    for j in 0..400usize {
+                        let who = if j % 2 == 0 { &s2 } else { &s };
+                        let st0 = j % 9;
+                        let r = guard(|| who.try_find(input(&probe, (st0, probe.len()), false, false)));
+                        if !matches!(r, Ok(Ok(_))) {
+                            return Err(fail(format!("burst search failed: {:?}", r.map(|x| x.map_err(|e| e.to_string())))));
+                        }
                     }
                     // finish the in-flight overlapping search
                     if mk == Mk::Standard {
